@@ -21,6 +21,7 @@ const std::vector<std::string>& vocabulary() {
     "\\subseteq", "\\subset", "\\notsubset", "\\union", "\\intersect", "\\setminus", "\\symmdiff", "B", "\\assign", "\\from", "\\defexpr", "\\deftype",
     // fragments that are valid on their own
     "X1\xE2\x88\xAAX1", "a\xE2\x88\x88X1", "\xE2\x88\x80" "a\xE2\x88\x88X1 ", "D{a\xE2\x88\x88X1|", "R{a:=X1|", "I{a|a:\xE2\x88\x88X1;", "F1[X1,X1]", "P1[D1]", "[a\xE2\x88\x88X1] ", "(a,b)", "debool(", "Pr1(S1)",
+    "F2", "F3", "P2", "F2[X1]", "F3[X1]", "P2[X1,D1]", "F2[", "P2[",
     "\xF0\x9F\x98\x80", "\xFF", "\x00",
   };
   return v;
